@@ -22,7 +22,7 @@ def device_part(ck, coq_in):
                              "a %s decided to deny a frame (lists consulted %s) and still %s" % ("firewall" if fw else "router", log["lists"],
                              "handed it to its session manager" if log["local"] else "sent it out of port %d" % log["outs"][0][0]),
                              {"device": "firewall" if fw else "router", "frame": s, "lists": log["lists"], "outs": log["outs"], "state": term[:3000]})
-            if fw and any(o[4] for o in log["outs"]):
+            if fw and any(o[4] and o[3] != "None" for o in log["outs"]):      # (a frame sent with no destination MAC is accepted by nobody)
                 # zone lists by ARRIVAL and by actual EGRESS port
                 need = {1: "ext_in", 2: "int_out", 3: "dmz_out"}[s["port"]], {1: "ext_out", 2: "int_in", 3: "dmz_in"}[log["outs"][0][0]]
                 have = [n for n, ok in log["lists"] if ok]
